@@ -40,6 +40,7 @@ func main() {
 	deadline := flag.Duration("deadline", 0, "wall clock budget per entry")
 	smtlog := flag.String("smtlog", "", "file receiving all solver input")
 	tags := flag.String("tags", "", "build tags")
+	paramStr := flag.String("params", "", "k=v,... parameters for -entry runs")
 	jobsFile := flag.String("jobs", "", "JSON file: [{\"entry\":..., \"params\":{...}, \"witness\":bool}] (overrides -entry)")
 	flag.Parse()
 
@@ -102,7 +103,15 @@ func main() {
 	} else {
 		for _, entry := range strings.Split(*entries, ",") {
 			if entry != "" {
-				jobs = append(jobs, job{Entry: entry, Witness: *witness})
+				pm := map[string]int{}
+				for _, kv := range strings.Split(*paramStr, ",") {
+					if i := strings.Index(kv, "="); i > 0 {
+						n := 0
+						fmt.Sscanf(kv[i+1:], "%d", &n)
+						pm[kv[:i]] = n
+					}
+				}
+				jobs = append(jobs, job{Entry: entry, Witness: *witness, Params: pm})
 			}
 		}
 	}
